@@ -343,8 +343,14 @@ Proof.
   all: name_result; unfold call_handler, ret; cases; leaf; eauto 30 with trdb.
 Qed.
 #[export] Hint Resolve Tr_call_handler : trdb.
-Lemma Tr_call_id_handler : forall k n e s0 s o, Tr s0 s o -> Tr s0 (fst (call_id_handler k n e s)) (o ++ (snd (call_id_handler k n e s))).
-Proof. intros k; destruct k; intros; name_result; unfold call_id_handler, ret; cases; leaf; eauto 30 with trdb. Qed.
+Lemma Tr_call_id_handler : forall k n e s0 s o, is_user_id k && negb (neg_done s) = false ->
+  Tr s0 s o -> Tr s0 (fst (call_id_handler k n e s)) (o ++ (snd (call_id_handler k n e s))).
+Proof.
+  intros k; destruct k; intros n0 e s0 s o G H.
+  4: { (* the user's id handler runs only once the connection is up *)
+       cbn in G. apply negb_false_iff in G. cbn. apply Tr_user_out; auto. }
+  all: name_result; unfold call_id_handler, ret; cases; leaf; eauto 30 with trdb.
+Qed.
 #[export] Hint Resolve Tr_call_id_handler : trdb.
 Lemma Tr_note_rx : forall e s0 s o, Tr s0 s o -> Tr s0 (note_rx e s) o.
 Proof. intros; eapply Tr_state; [eassumption | apply Fr_note_rx; apply Fr_refl | unfold note_rx; exact (fun h => h)]. Qed.
@@ -364,7 +370,24 @@ Lemma Tr_sm_handle : forall e s0 s o, Tr s0 s o -> Tr s0 (sm_handle e s) o.
 Proof. intros; unfold sm_handle, ret; cases; leaf; eauto 30 with trdb. Qed.
 #[export] Hint Resolve Tr_sm_handle : trdb.
 Lemma Tr_dispatch : forall n e s0 s o, Tr s0 s o -> Tr s0 (fst (dispatch n e s)) (o ++ (snd (dispatch n e s))).
-Proof. intros; name_result; unfold dispatch, ret; cases; leaf; eauto 30 with trdb. Qed.
+Proof.
+  intros n e s0 s o H. unfold dispatch. cbv zeta.
+  pose proof (Tr_note_rx e s0 s o H) as H1. generalize dependent (note_rx e s). intros sa H1.
+  destruct (negb (sm_alloc sa)); [cbn [fst snd]; eauto with trdb|].
+  match goal with |- context [id_has _ ?x] => set (sE := x) end.
+  assert (HE : Tr s0 sE o) by (unfold sE; eauto with trdb). clearbody sE.
+  match goal with |- context [let '(s1, o1) := ?r in _] => assert (R1 : Tr s0 (fst r) (o ++ snd r)) end.
+  { destruct (idk_of (e_id e)) as [k|]; [|cbn; rewrite app_nil_r; exact HE]. destruct (id_has k sE); [|cbn; rewrite app_nil_r; exact HE].
+    (* the user's id handler is skipped until the connection is up *)
+    destruct (is_user_id k && negb (neg_done sE)) eqn:G; [cbn; rewrite app_nil_r; exact HE|].
+    pose proof (Tr_call_id_handler k n e s0 sE o G HE) as T. destruct (call_id_handler k n e sE) as [s1 o1]. cbn [fst snd] in *.
+    destruct (is_user_id k); eauto with trdb. }
+  match goal with |- context [let '(s1, o1) := ?r in _] => destruct r as [s1 o1] end. cbn [fst snd] in R1.
+  match goal with |- context [let '(s3, o3) := ?X in _] =>
+    assert (R3 : Tr s0 (fst X) (o ++ snd X)) by (apply Tr_fold_visit_pair; exact R1); revert R3; destruct X as [s3 o3]; intro R3 end.
+  cbn [fst snd] in *.
+  destruct (crashed s3); [exact R3|]. destruct (sm_enabled s3); cbn [fst snd]; eauto with trdb.
+Qed.
 #[export] Hint Resolve Tr_dispatch : trdb.
 Lemma Tr_open_handler : forall n s0 s o, Tr s0 s o -> Tr s0 (fst (open_handler n s)) (o ++ (snd (open_handler n s))).
 Proof. intros; name_result; unfold open_handler, ret; cases; leaf; eauto 30 with trdb. Qed.
@@ -1483,6 +1506,8 @@ Lemma nd_h_add : forall k s, neg_done (h_add k s) = neg_done s. Proof. intros; u
 Lemma nd_timed_add : forall k n s, neg_done (timed_add k n s) = neg_done s. Proof. intros; unfold timed_add; cases; reflexivity. Qed.
 Lemma gh_h_add : forall k s, gh (h_add k s) = gh s. Proof. intros; unfold h_add; cases; reflexivity. Qed.
 Lemma gh_timed_add : forall k n s, gh (timed_add k n s) = gh s. Proof. intros; unfold timed_add; cases; reflexivity. Qed.
+Lemma nd_id_add : forall k s, neg_done (id_add k s) = neg_done s. Proof. intros; unfold id_add; cases; reflexivity. Qed.
+Lemma gh_id_add : forall k s, gh (id_add k s) = gh s. Proof. intros; unfold id_add; cases; reflexivity. Qed.
 
 Lemma user_connect : forall s s1 o (rc : Z), IU s ->
   (Cfg s s1 /\ o = [] \/ Fresh s s1 /\ forallb quiet o = true) ->
@@ -1519,8 +1544,8 @@ Proof.
   - cases; unfold ret; cbn [fst snd]; apply Fin; auto; (eapply UQ_same; [exact Q0 | reflexivity | reflexivity | eauto 20 with u1db | eauto 20 with u2db]).
   - (* OpUserHandlers *)
     cases; unfold ret; cbn [fst snd]; apply Fin; auto;
-      (eapply UQ_same; [exact Q0 | sproj; rewrite ?nd_timed_add, ?nd_h_add; reflexivity
-                        | sproj; rewrite ?gh_timed_add, ?gh_h_add; reflexivity | eauto 20 with u1db | eauto 20 with u2db]).
+      (eapply UQ_same; [exact Q0 | sproj; rewrite ?nd_timed_add, ?nd_id_add, ?nd_h_add; reflexivity
+                        | sproj; rewrite ?gh_timed_add, ?gh_id_add, ?gh_h_add; reflexivity | eauto 20 with u1db | eauto 20 with u2db]).
   - cases; unfold ret; cbn [fst snd]; apply Fin; auto; (eapply UQ_same; [exact Q0 | reflexivity | reflexivity | eauto 20 with u1db | eauto 20 with u2db]).
   - unfold ret; cbn [fst snd]; apply Fin; (eapply UQ_same; [exact Q0 | reflexivity | reflexivity | eauto 20 with u1db | eauto 20 with u2db]).
   - (* OpConnectClient *)
@@ -2108,6 +2133,7 @@ Proof.
     apply XO_sm_enable; [ | eauto 10 with xodb]. apply X7.
     match goal with Hq : _ && _ = true |- _ => apply andb_prop in Hq; destruct Hq as [Hq _]; revert Hq; unfold timed_del; sproj; auto end.
   - name_result. unfold call_id_handler, ret. cases; leaf; eauto 10 with xodb.
+  - (* the user's id handler *) cbn [call_id_handler fst]. exact H.
 Qed.
 
 (* ------------------------------------------------------------------ lifting XO along an iteration *)
@@ -2158,7 +2184,9 @@ Proof.
   cbv zeta.
   match goal with |- context [let '(s1, o1) := ?r in _] => assert (R : PH (fst r) /\ DL (fst r) /\ XO g (fst r)) end.
   { destruct (idk_of (e_id e)) as [k|]; [|cbn; auto]. destruct (id_has k s) eqn:Hk; [|cbn; auto].
-    pose proof (PH_id_step k n e s P2 L2 Hk) as [T1 T2]. pose proof (XO_call_id_handler g k n e s P2 Hk H2) as T3.
+    destruct (is_user_id k) eqn:Uk; cbn [andb].
+    { destruct k; try discriminate Uk. destruct (negb (neg_done s)); cbn; auto. }
+    pose proof (PH_id_step k n e s Uk P2 L2 Hk) as [T1 T2]. pose proof (XO_call_id_handler g k n e s P2 Hk H2) as T3.
     destruct (call_id_handler k n e s) as [s1 o1]. cbn [fst] in *. refine (conj T1 (conj T2 _)). unfold id_del. eauto with xodb. }
   match goal with |- context [let '(s1, o1) := ?r in _] => destruct r as [s1 o1] end. cbn [fst] in R. destruct R as (P3 & L3 & H3).
   pose proof (XO_fold_visit g n e HR (map fst (filter (fun x => snd x) (handlers s1))) s1 o1 P3 L3 H3) as (P4 & L4 & H4).
@@ -2464,7 +2492,7 @@ Proof.
     unfold set_flags. destruct (st s) eqn:St; auto. match goal with |- context [if ?c then _ else _] => destruct c end; cbn [fst]; auto.
   - (* OpUserHandlers *)
     destruct (st s) eqn:St; cbn [fst ret]; auto.
-    apply (XOs_same_gh s); [unfold h_add, timed_add; cases; reflexivity | unfold XOs in B; cases; eauto 10 with xodb].
+    apply (XOs_same_gh s); [unfold h_add, id_add, timed_add; cases; reflexivity | unfold XOs in B; cases; eauto 10 with xodb].
   - pose proof (XS_connect_client now s (conj A (conj B C))) as (_ & Q & _). destruct (connect_client now s) as [[s1 o] rc]. exact Q.
   - destruct (st s) eqn:St; cbn [fst]; auto.
     assert (Hx : XS (set_is_raw true s)).
@@ -2858,8 +2886,24 @@ Proof.
   assert (Ese : sm_enabled (id_add k s) = sm_enabled s) by (unfold id_add; cases; reflexivity).
   cr_split; unfold h_has; rewrite ?Eh, ?Eoh, ?Elv, ?Esr, ?Ese; auto.
   - unfold postauth. rewrite Eh, Eoh, !id_has_id_add. intros P. destruct (is_main_id k) eqn:K; auto. apply R1. unfold postauth.
-    destruct k; try discriminate. cbn [idk_eqb] in P. rewrite !orb_false_r in P. exact P.
+    destruct k; try discriminate; cbn [idk_eqb] in P; rewrite !orb_false_r in P; exact P.
   - rewrite id_has_id_add. intros P. destruct (idk_eqb IKSession k) eqn:K; auto. rewrite orb_false_r in P. auto.
+Qed.
+(* the user's id handler is no registration of the negotiation *)
+Lemma CR_id_add_user : forall b g ty rw s, CR b g ty rw s -> CR b g ty rw (id_add IKUser s).
+Proof.
+  intros b g ty rw s H. cr_dest H.
+  assert (Eh : handlers (id_add IKUser s) = handlers s) by (unfold id_add; cases; reflexivity).
+  assert (Eoh : oh (id_add IKUser s) = oh s) by (unfold id_add; cases; reflexivity).
+  assert (Elv : live (id_add IKUser s) = live s) by (unfold id_add; cases; reflexivity).
+  assert (Esr : sm_resume (id_add IKUser s) = sm_resume s) by (unfold id_add; cases; reflexivity).
+  assert (Ese : sm_enabled (id_add IKUser s) = sm_enabled s) by (unfold id_add; cases; reflexivity).
+  assert (Ei : forall j, idk_eqb j IKUser = false -> id_has j (id_add IKUser s) = id_has j s)
+    by (intros j J; rewrite id_has_id_add, J, orb_false_r; reflexivity).
+  assert (Em : imarks (id_add IKUser s) = imarks s) by apply imarks_id_add_user.
+  assert (Ehm : hmarks (id_add IKUser s) = hmarks s) by (unfold hmarks; rewrite Eh; reflexivity).
+  cr_split; unfold h_has, postauth, clientreg;
+    rewrite ?Eh, ?Eoh, ?Elv, ?Esr, ?Ese, ?Em, ?Ehm, ?(Ei IKBind eq_refl), ?(Ei IKSession eq_refl), ?(Ei IKLegacy eq_refl); auto.
 Qed.
 Lemma postauth_id_del : forall k s, postauth (id_del k s) = true -> postauth s = true.
 Proof.
@@ -3138,18 +3182,20 @@ Qed.
 (* ------------------------------------------------------------------ id handlers, open handlers *)
 Lemma postauth_id : forall k s, is_main_id k = true -> id_has k s = true -> postauth s = true.
 Proof. intros k s M H. unfold postauth. destruct k; try discriminate; rewrite H, ?orb_true_r; reflexivity. Qed.
-Lemma clientreg_id : forall k s, id_has k s = true -> clientreg s = true.
+Lemma clientreg_id : forall k s, is_user_id k = false -> id_has k s = true -> clientreg s = true.
 Proof.
-  intros k s H. unfold clientreg. destruct (is_main_id k) eqn:M.
+  intros k s U H. unfold clientreg. destruct (is_main_id k) eqn:M.
   - pose proof (imarks_pos k s M H). destruct (Nat.eqb (imarks s) 0) eqn:E; [apply Nat.eqb_eq in E; lia | cbn; rewrite orb_true_r; reflexivity].
   - destruct k; try discriminate. rewrite H, ?orb_true_r. reflexivity.
 Qed.
 Lemma CR_call_id_handler : forall g ty rw k n e s, live s = true -> id_has k s = true -> idk_of (e_id e) = Some k -> Nx e g ->
   CR true g ty rw s -> CR true g ty rw (fst (call_id_handler k n e s)).
 Proof.
-  intros g ty rw k n e s L Hk Ik (N1 & N2 & N3 & N4 & N5) H. pose proof H as H'. cr_dest H'.
-  assert (TC : isclient ty rw) by (apply R5; [exact L | exact (clientreg_id k s Hk)]).
-  destruct k.
+  intros g ty rw k n e s L Hk Ik (N1 & N2 & N3 & N4 & N5) H.
+  destruct (is_user_id k) eqn:Uk; [destruct k; try discriminate Uk; exact H|].
+  pose proof H as H'. cr_dest H'.
+  assert (TC : isclient ty rw) by (apply R5; [exact L | exact (clientreg_id k s Uk Hk)]).
+  destruct k; [ | | |discriminate Uk].
   - assert (A : g_auth_ok g = true) by (apply R1; exact (postauth_id IKBind s eq_refl Hk)).
     assert (Ib : e_id e = IdBind) by (destruct (e_id e); try discriminate; reflexivity).
     name_result. unfold call_id_handler, ret. destruct (e_type e) eqn:Ty; leaf; eauto 10 with crdb.
@@ -3609,16 +3655,21 @@ Proof.
   match goal with |- context [let '(s1, o1) := ?r in _] => assert (Rr : K2 g ty rw c0 p r) end.
   { unfold K2. destruct (idk_of (e_id e)) as [k|] eqn:Ik; [|cbn [fst snd ret]; rewrite app_nil_r; auto].
     destruct (id_has k s) eqn:Hk; [|cbn [fst snd ret]; rewrite app_nil_r; auto].
-    pose proof (PH_id_step k n e s P2 L2 Hk) as [T1 T2].
+    destruct (is_user_id k) eqn:Uk; cbn [andb].
+    { (* the user's id handler: no state change, no "connected" report *)
+      destruct k; try discriminate Uk. destruct (negb (neg_done s)); cbn [fst snd ret call_id_handler is_user_id];
+        [rewrite app_nil_r; auto|].
+      refine (conj P2 (conj L2 (conj C2 _))). apply NK_noc; [exact K2'|reflexivity]. }
+    pose proof (PH_id_step k n e s Uk P2 L2 Hk) as [T1 T2].
     assert (Lv : live s = true).
-    { destruct (live s) eqn:Lv; auto. rewrite (Dead_no_id k s (L2 (not_live s Lv))) in Hk. discriminate. }
+    { destruct (live s) eqn:Lv; auto. rewrite (Dead_no_id k s Uk (L2 (not_live s Lv))) in Hk. discriminate. }
     pose proof (CR_call_id_handler g ty rw k n e s Lv Hk Ik NX C2) as T3.
     pose proof (NK_call_id_handler k n e g ty rw c0 s p) as T4.
     destruct (call_id_handler k n e s) as [s1 o1]. cbn [fst snd] in *. refine (conj T1 (conj T2 (conj (CR_id_del _ _ _ _ k s1 T3) _))).
     apply NK_id_del. apply T4; auto; [|intros _; apply live_st; exact Lv].
     intros Ty Nm. destruct NX as (N1 & N2 & N3 & N4 & N5). pose proof C2 as C2'. cr_dest C2'.
-    assert (TC : isclient ty rw) by (apply R5; [exact Lv | exact (clientreg_id k s Hk)]). destruct TC as [Ety Erw]. rewrite Ety, Erw.
-    destruct k.
+    assert (TC : isclient ty rw) by (apply R5; [exact Lv | exact (clientreg_id k s Uk Hk)]). destruct TC as [Ety Erw]. rewrite Ety, Erw.
+    destruct k; [ | | |discriminate Uk].
     - apply cjt_client; [apply R1; exact (postauth_id IKBind s eq_refl Hk) | left; apply N2; auto; destruct (e_id e); try discriminate; reflexivity].
     - apply cjt_client; [apply R1; exact (postauth_id IKSession s eq_refl Hk) | left; apply R2; exact Hk].
     - apply cjt_legacy. apply N3; auto. destruct (e_id e); try discriminate; reflexivity. }
@@ -4227,7 +4278,7 @@ Proof.
     match goal with |- CKI (note_outs ?o ?x) => assert (Hx : CKs (typ x) (is_raw x) (g_connects (gh x)) x o); [|exact (CKI_of x x o Hx)] end.
     unfold conn_reset, prepare_reset. rewrite C. cbv zeta. split.
     + sproj. cr_split; unfold postauth, clientreg, live, h_has, id_has, hmarks, imarks; sproj;
-        rewrite ?pa_user_only, ?hmarks_user_only, ?h_has_user_only; cbn [existsb filter List.length Nat.eqb negb orb]; auto; try (intros; discriminate); try congruence.
+        rewrite ?pa_user_only, ?hmarks_user_only, ?h_has_user_only, ?imarks_user_only, ?(id_has_user_only IKBind _ eq_refl), ?(id_has_user_only IKSession _ eq_refl), ?(id_has_user_only IKLegacy _ eq_refl); cbn [existsb filter List.length Nat.eqb negb orb]; auto; try (intros; discriminate); try congruence.
       * destruct (is_raw s); cbn; [intros; discriminate|]. destruct t; cbn; intros; discriminate.
       * intros _. destruct (is_raw s); cbn; [intros; discriminate|]. destruct t; cbn; intros; try discriminate. split; reflexivity.
       * intros _ [X|X]; [discriminate|]. destruct (is_raw s); [discriminate|]. destruct t; [discriminate|]. split; reflexivity.
@@ -4240,7 +4291,7 @@ Proof.
     match goal with |- CKI (note_outs ?o ?x) => assert (Hx : CKs (typ x) (is_raw x) (g_connects (gh x)) x o); [|exact (CKI_of x x o Hx)] end.
     unfold conn_reset. rewrite C. cbv zeta. split.
     + sproj. cr_split; unfold postauth, clientreg, live, h_has, id_has, hmarks, imarks; sproj; rewrite ?C;
-        rewrite ?pa_user_only, ?hmarks_user_only, ?h_has_user_only; cbn [existsb filter List.length Nat.eqb negb orb]; auto; try (intros; discriminate); try congruence.
+        rewrite ?pa_user_only, ?hmarks_user_only, ?h_has_user_only, ?imarks_user_only, ?(id_has_user_only IKBind _ eq_refl), ?(id_has_user_only IKSession _ eq_refl), ?(id_has_user_only IKLegacy _ eq_refl); cbn [existsb filter List.length Nat.eqb negb orb]; auto; try (intros; discriminate); try congruence.
       all: try (intros P; apply R1; unfold postauth; rewrite P; rewrite ?orb_true_r; reflexivity).
     + destruct Kr. constructor; sproj; auto using GFr_refl.
       intros R. assert (Z' : count_oc (oo ++ outs') = 0%nat).
@@ -4303,9 +4354,11 @@ Proof.
     destruct (st s) eqn:C; cbn [fst snd]. 2,3: apply (CKI_eqf s s); auto using SameF_refl.
     destruct H as [Cr Kr]. apply (CKI_fn s).
     + apply CR_set_user_timed, CR_set_user_handler.
-      assert (C1 : CR true (gh s) (typ s) (is_raw s) (if stanza then h_add HUser s else s)) by (destruct stanza; [apply CR_h_add; [apply okh_user | exact Cr] | exact Cr]).
+      assert (C1 : CR true (gh s) (typ s) (is_raw s) (if stanza then id_add IKUser (h_add HUser s) else s))
+        by (destruct stanza; [apply CR_id_add_user, CR_h_add; [apply okh_user | exact Cr] | exact Cr]).
       destruct timed; [apply CR_timed_add|]; exact C1.
-    + assert (K1 : NK (gh s) (typ s) (is_raw s) (g_connects (gh s)) (if stanza then h_add HUser s else s) []) by (destruct stanza; [apply NK_h_add|]; exact Kr).
+    + assert (K1 : NK (gh s) (typ s) (is_raw s) (g_connects (gh s)) (if stanza then id_add IKUser (h_add HUser s) else s) [])
+        by (destruct stanza; [apply NK_id_add, NK_h_add|]; exact Kr).
       match goal with |- NK _ _ _ _ (set_user_timed _ (set_user_handler _ ?x)) _ => set (X := x) end.
       assert (KX : NK (gh s) (typ s) (is_raw s) (g_connects (gh s)) X []) by (unfold X; destruct timed; [apply NK_timed_add|]; exact K1).
       clearbody X. eapply NK_same; [ | | | | | exact KX]; sproj; reflexivity.
